@@ -124,6 +124,11 @@ def run(ctx):
     for n in walk_own(zz.node):
         if isinstance(n, (ast.While, ast.For)):
             loop = n
+    if isinstance(loop, ast.For) and _parity_idiom(zz, loop, src):
+        ctx.inst("I2", zz, loop, "groups reversed on odd levels by a parity counter starting at an even constant")
+        ctx.floor("I1", 16)
+        ctx.floor("I2", 9)
+        return
     if loop is None or itname is None:
         ctx.viol("I2", zz, zz.node, "alternation loop over the group iterator not found", construct="ZigZag: loop")
         return
@@ -154,6 +159,11 @@ def run(ctx):
                 seq.append(classify(y.value) if y.value is not None else "?")
     outside = [y for y in walk_own(zz.node) if isinstance(y, (ast.Yield, ast.YieldFrom)) and not any(y is x for x in ast.walk(loop))]
     pattern = "".join(seq)
+    if isinstance(loop, ast.For) and _parity_idiom(zz, loop, src, classify_with=None):
+        ctx.inst("I2", zz, loop, "groups reversed on odd levels by a parity counter starting at an even constant")
+        ctx.floor("I1", 16)
+        ctx.floor("I2", 9)
+        return
     if pattern and len(pattern) % 2 == 0 and pattern == "UR" * (len(pattern) // 2) and not outside and isinstance(loop, ast.While):
         ctx.inst("I2", zz, loop, "groups yielded in strict alternation %s starting unchanged" % pattern)
     else:
@@ -165,3 +175,69 @@ def run(ctx):
         ctx.inst("I2", zz, loop, "loop ends on StopIteration of the group iterator")
     ctx.floor("I1", 16)
     ctx.floor("I2", 9)
+
+
+def _parity_idiom(zz, loop, src, classify_with=None):
+    """for [i,] group in [enumerate(]<source>[)]: yield reversed(group) if c % 2 else group, c from an even constant, +1 per iteration"""
+    it = loop.iter
+    counter = None
+    gname = None
+    enum = False
+    if isinstance(it, ast.Call) and norm(it.func) == "enumerate" and it.args and (it.args[0] is src or _assigned_from(zz, it.args[0], src)):
+        if len(it.args) > 1 or it.keywords:
+            st = it.args[1] if len(it.args) > 1 else it.keywords[0].value
+            if not (isinstance(st, ast.Constant) and isinstance(st.value, int) and st.value % 2 == 0):
+                return False
+        if isinstance(loop.target, ast.Tuple) and len(loop.target.elts) == 2 and all(isinstance(e, ast.Name) for e in loop.target.elts):
+            counter, gname, enum = loop.target.elts[0].id, loop.target.elts[1].id, True
+    elif (it is src or _assigned_from(zz, it, src)) and isinstance(loop.target, ast.Name):
+        gname = loop.target.id
+    if gname is None:
+        return False
+    ys = [y for st in loop.body for y in ast.walk(st) if isinstance(y, ast.Yield)]
+    if len(ys) != 1 or not isinstance(ys[0].value, ast.IfExp):
+        return False
+    v = ys[0].value
+    t = v.test
+    odd_when_true = None
+    if isinstance(t, ast.BinOp) and isinstance(t.op, (ast.Mod, ast.BitAnd)) and isinstance(t.left, ast.Name) and isinstance(t.right, ast.Constant) \
+            and t.right.value == (2 if isinstance(t.op, ast.Mod) else 1):
+        counter_used, odd_when_true = t.left.id, True
+    elif isinstance(t, ast.Compare) and len(t.ops) == 1 and isinstance(t.left, ast.BinOp) and isinstance(t.left.op, ast.Mod) \
+            and isinstance(t.left.left, ast.Name) and isinstance(t.left.right, ast.Constant) and t.left.right.value == 2 \
+            and isinstance(t.comparators[0], ast.Constant) and t.comparators[0].value in (0, 1) and isinstance(t.ops[0], (ast.Eq, ast.NotEq)):
+        counter_used = t.left.left.id
+        odd_when_true = (t.comparators[0].value == 1) == isinstance(t.ops[0], ast.Eq)
+    else:
+        return False
+
+    def is_rev(e):
+        return (isinstance(e, ast.Call) and norm(e.func) in ("tuple", "list") and len(e.args) == 1 and isinstance(e.args[0], ast.Call)
+                and norm(e.args[0].func) == "reversed" and norm(e.args[0].args[0]) == gname) or norm(e) == "%s[::-1]" % gname
+
+    def is_plain(e):
+        return norm(e) == gname or (isinstance(e, ast.Call) and norm(e.func) in ("tuple", "list") and len(e.args) == 1 and norm(e.args[0]) == gname)
+    rev, plain = (v.body, v.orelse) if odd_when_true else (v.orelse, v.body)
+    if not (is_rev(rev) and is_plain(plain)):
+        return False
+    if enum:
+        return counter_used == counter
+    # explicit counter: even constant before the loop, += 1 exactly once per iteration, no other assignment
+    inits = [n for n in walk_own(zz.node) if isinstance(n, ast.Assign) and any(isinstance(x, ast.Name) and x.id == counter_used for x in n.targets)]
+    incs = [n for n in walk_own(zz.node) if isinstance(n, ast.AugAssign) and isinstance(n.target, ast.Name) and n.target.id == counter_used]
+    if len(inits) != 1 or len(incs) != 1:
+        return False
+    if not (isinstance(inits[0].value, ast.Constant) and isinstance(inits[0].value.value, int) and not isinstance(inits[0].value.value, bool)
+            and inits[0].value.value % 2 == 0):
+        return False
+    inc = incs[0]
+    if not (isinstance(inc.op, ast.Add) and isinstance(inc.value, ast.Constant) and inc.value.value == 1 and inc in loop.body):
+        return False
+    return True
+
+
+def _assigned_from(func, e, src):
+    if not isinstance(e, ast.Name):
+        return False
+    return any(isinstance(n, ast.Assign) and n.value is src and any(isinstance(t, ast.Name) and t.id == e.id for t in n.targets)
+               for n in walk_own(func.node))
